@@ -251,6 +251,8 @@ func (env *Env) ctor(t Ty, parsed bool) px.Type {
 		return types.NewSensitiveType(env.ctor(t.Ts[0], parsed))
 	case "iter":
 		return types.NewIterableType(env.ctor(t.Ts[0], parsed))
+	case "itr":
+		return types.NewIteratorType(env.ctor(t.Ts[0], parsed))
 	case "obj":
 		if len(t.Path) == 0 {
 			return types.DefaultObjectType()
